@@ -35,8 +35,8 @@ CHECKS = {
    note="Bounds: 1..3 (quick) / 1..4 (thorough) classes, k_1 in {3,5} / {3,4,5}, failure probability 0.5, TN=TS=1. np/pd facades keep object dtype inside woehlercurve/miner/solidity (self-tested against numpy). x**(1/4) over-approximated by an arbitrary positive real. Non-integer slopes and IntervalIndex histograms are outside.",
    design="6 C11"),
  "C16": dict(
-   text="Symbolic check of the closed-form identities on the real code: Hooke's law 1D / plane stress / plane strain / 3D with symbolic E > 0, -1 < nu < 1/2 and symbolic components: stress(strain(.)) and strain(stress(.)) are the identity, plane strain == 3D at zero out-of-plane strain, plane stress == 3D at zero out-of-plane stress, G and K follow from E and nu (decided as rational-function identities); Ramberg-Osgood with x**y as an uninterpreted function: strain is odd, the Masing range function is the doubled curve, the lower hysteresis branch meets the curve at the reversal point and raises above it, tangential modulus is the reciprocal of the compliance.",
-   note="Claimed in part: the Newton inverses stress()/delta_stress() (convergence of a float iteration), 'compliance is the derivative' (calculus), strict monotonicity of the real power function and the true stress/strain conversions (no inverse in the code) are outside. No loop bound is involved. np facade in rambgood (self-tested).",
+   text="Symbolic check of the closed-form identities on the real code: Hooke's law 1D / plane stress / plane strain / 3D with symbolic E > 0, -1 < nu < 1/2 and symbolic components: stress(strain(.)) and strain(stress(.)) are the identity, plane strain == 3D at zero out-of-plane strain, plane stress == 3D at zero out-of-plane stress, G and K follow from E and nu (decided as rational-function identities); Ramberg-Osgood with x**y as an uninterpreted function: strain is odd, the Masing range function is the doubled curve, the lower hysteresis branch meets the curve at the reversal point and raises above it, tangential modulus is the reciprocal of the compliance; true stress s(1+e) divided by (1+e) gives the engineering stress back (scalar, array, asked twice with the same arrays) and the true fracture stress times the remaining cross section gives the force back.",
+   note="Claimed in part: the Newton inverses stress()/delta_stress() (convergence of a float iteration), 'compliance is the derivative' (calculus), strict monotonicity of the real power function and the logarithmic true strain (transcendental) are outside. No loop bound is involved. np facade in rambgood (self-tested).",
    design="6 C16"),
  "C17": dict(
    text="Symbolic check of the real equistress functions with numpy.linalg.eigvalsh replaced by its contract: tresca = l3 - l1, max/min principal, absolute maximum principal = eigenvalue of largest magnitude with its sign, signed variants = documented sign (+1 for a zero indicator) times the unsigned value, mises**2 = half the sum of squared principal differences and mises >= 0 (from the component formula under the Vieta relations, sqrt exact), mises <= tresca <= 2/sqrt(3) mises, positive scaling and rotation invariance of mises about each coordinate axis with symbolic (cos, sin), accessor == functions row by row.",
@@ -63,8 +63,8 @@ CHECKS = {
    note="Claimed for this clause only: equivariance, exact recovery and likelihood ordering of the Elementary / Probit / MaxLike analyzers are outside (least squares, scipy.optimize.fmin, norm.ppf on symbolic data have no encoding). 2..3 (quick) / 2..5 (thorough) test rows; admissible data (two distinct fracture loads and cycle numbers). pandas.Series.unique gets an object-dtype fall-back.",
    design="6 C18"),
  "C19": dict(
-   text="Bounded exhaustive symbolic check of the hot-spot clause: HotSpot.calc on concrete small meshes (shared nodes, disconnected, chains, id gaps, shuffled rows) with symbolic pairwise distinct field values of any sign against union-find components: exactly the entries >= fraction * maximum are labelled, labels are the connected components under shared-node / shared-element adjacency, numbered by descending peak.",
-   note="Claimed for this clause only: gradients (lstsq, Jacobians), mesh mapping (Qhull) and surface detection (arccos) are outside. Meshes with 4..6 entries enumerated, fractions 0.5 and 0.9.",
+   text="Bounded symbolic check of two clauses. Hot spots: HotSpot.calc on concrete small meshes (shared nodes, disconnected, chains, id gaps, shuffled rows) with symbolic pairwise distinct field values of any sign against union-find components: exactly the entries >= fraction * maximum are labelled, labels are the connected components under shared-node / shared-element adjacency, numbered by descending peak. Gradients of a linear field f = g.x + f0 with symbolic g and f0: the shape-function operator Gradient3D returns g at every node of a tetrahedron with fully symbolic node positions (quick), of two tetrahedra sharing a face and of a hexahedron in right- and left-handed node order (concrete perturbed positions in quick, fully symbolic positions - 15 / 24 symbols - in thorough), decided as rational-function identities; the least-squares operator Gradient returns g at every node for node ids 1..N, permuted, with gaps, with gaps and unordered.",
+   note="Claimed for these clauses: mesh mapping (Qhull) and surface detection (arccos) are outside. Contract stubs in the symbolic run: numpy.linalg.inv / det of a 3x3 matrix by adjugate and determinant (non-degenerate elements assumed: Jacobian regular at every corner), numpy.linalg.lstsq for a concrete matrix and symbolic right-hand side by the normal equations in exact rationals. Hot-spot meshes with 4..6 entries enumerated, fractions 0.5 and 0.9. A defect found by this check was repaired (node ids used as positions in Gradient).",
    design="6 C19"),
 }
 NA = {
